@@ -104,6 +104,14 @@ func (g *Gen) newID() int { return g.H.Reg.NextID }
 func (g *Gen) Define(p TxP) int {
 	id := g.newID()
 	g.do(fmt.Sprintf("def t%d %s", id, p.String()))
+	if g.H.Reg.ByID[id] == nil {
+		// identical to an earlier definition: make it distinct through the fee
+		p.Fee += int64(id)
+		g.do(fmt.Sprintf("def t%d %s", id, p.String()))
+		if g.H.Reg.ByID[id] == nil {
+			return 0
+		}
+	}
 	g.ids = append(g.ids, id)
 	g.mids = append(g.mids, id)
 	return id
@@ -303,8 +311,8 @@ func (g *Gen) TxList() {
 		count = int64(r.Range(-1, 0))
 	}
 	var excl []int
-	if r.Chance(1, 2) {
-		excl = g.pickMembers(r.Range(1, 4))
+	if r.Chance(1, 3) {
+		excl = g.pickMembers(r.Range(1, 3))
 	}
 	g.do(fmt.Sprintf("txlist %d%s", count, tnames(excl)))
 }
@@ -336,4 +344,21 @@ func FindCollision() {
 		seen[k] = n
 	}
 	fmt.Println("none")
+}
+
+// TxHeightFlag is types.TxHeightFlag.
+func TxHeightFlag() int64 { return types.TxHeightFlag }
+
+// EnvRaw issues an env line with explicit knobs.
+func (g *Gen) EnvRaw(c EnvCfg) {
+	g.cfg = c
+	g.h, g.bt, g.now = c.Height, c.BlkTime, c.Now
+	g.do(fmt.Sprintf("env cap=%d shmax=%d per=%d last=%d minfee=%d maxrate=%d level=%s noexec=%s h=%d bt=%d now=%d",
+		c.Cap, c.ShMax, c.Per, c.Last, c.MinFee, c.MaxRate, b01(c.Level), b01(c.NoExec), c.Height, c.BlkTime, c.Now))
+}
+
+// ClockBy advances the logical clock by d seconds.
+func (g *Gen) ClockBy(d int64) {
+	g.now += d
+	g.do(fmt.Sprintf("clock %d", g.now))
 }
